@@ -238,16 +238,17 @@ def expected(spec, with_links=True):
             model.invalid = "fragment does not cover the multi-residue block"
             return model
         n = len(blk["atoms"])
+        blk_base = min(a["resid"] for a in blk["atoms"])
         for j, fn in enumerate(frag):
-            local_atoms = [i for i, a in enumerate(blk["atoms"]) if (a["resid"] == j + 1 or not from_itp)]
+            local_atoms = [i for i, a in enumerate(blk["atoms"]) if (a["resid"] - blk_base == j or not from_itp)]
             ridx = len(model.residues)
             res = {"node": fn["id"], "resid": fn["resid"], "resname": fn["resname"], "block": blk,
                    "first": first + local_atoms[0], "natoms": len(local_atoms),
                    "labels": dict(fn.get("attrs", {})), "index": ridx, "inst": inst}
             model.residues.append(res)
         for local, atom in enumerate(blk["atoms"]):
-            fn = frag[atom["resid"] - 1] if from_itp else frag[0]
-            ridx = len(model.residues) - len(frag) + (atom["resid"] - 1 if from_itp else 0)
+            fn = frag[atom["resid"] - blk_base] if from_itp else frag[0]
+            ridx = len(model.residues) - len(frag) + (atom["resid"] - blk_base if from_itp else 0)
             # the written atom keeps the residue name of the block's own atoms line; what links select on is the
             # residue name of the residue-graph node (for multi-residue blocks: of the block's atoms)
             sel_resname = atom["resname"] if from_itp else fn["resname"]
